@@ -138,7 +138,12 @@ def mutants(sel):
                 print("mutant %-36s STALE (pattern occurs %d times)" % (mt["id"], src.count(mt["old"])))
                 ok_all = False
                 continue
-            open(path, "w").write(src.replace(mt["old"], mt["new"]))
+            src = src.replace(mt["old"], mt["new"])
+            for o2, n2 in mt.get("more", ()):
+                if src.count(o2) != 1:
+                    raise HarnessError("mutant %s: secondary pattern occurs %d times" % (mt["id"], src.count(o2)))
+                src = src.replace(o2, n2)
+            open(path, "w").write(src)
             r = _run_check_on(scratch, mt["prop"], int(os.environ.get("VERIF_RUNS", RUNS[mt["prop"]])))
         finally:
             shutil.rmtree(scratch, ignore_errors=True)
